@@ -12,12 +12,21 @@
          was last notified of proposes for it: the forced re-proposal if the justification
          implies one, otherwise the environment's payload for the implied block number;
      (3) every live honest node fetches, in order, the finalized blocks it is missing: block
-         number [next] is synced when some node has queued it and a verifying certificate for
-         it without forged signatures can be found on the network or in an honest node
-         (repeated while this makes progress);
+         number [next] is synced when some node has queued it and the block-fetch oracle
+         [fetch] (consulted once, at the state in which step (3) starts) returns a certificate
+         for it that verifies and has no forged signatures (repeated while this makes progress);
      (4) every live honest node whose view did not change during the round fires its view
          timer (the round lasts one view timeout).
-   The environment: [pay n] is the payload the execution layer hands to a proposer for block n. *)
+   The environment: [pay n] is the payload the execution layer hands to a proposer for block n;
+   [fetch s n] is what the block-fetch path (gossip get_block from a peer that has block n; the
+   block store keeps every block together with its certificate) returns for block number n.
+   Whatever the oracle returns is CHECKED before it is used, so a round consists of [pstep]
+   transitions for every oracle; that the oracle does return the certificate of every block
+   some honest node has queued is the environment assumption H-FETCH ([fetch_ok] below),
+   needed only for the progress statements.  The nodes of the protocol model do not retain
+   the certificates of the blocks they queued (only the highest one), which is why the
+   certificate has to come from the environment; [find_cert], which scans the network and the
+   honest nodes' highest certificates, is one admissible oracle. *)
 From Coq Require Import ZArith List Bool.
 From EC Require Import Lib.Outcome Lib.U64 Lib.ListW Lib.Obs Model.Msgs Model.Replica Model.ReplicaRun
   Model.Protocol.
@@ -105,21 +114,23 @@ Definition find_cert (P : params) (s : gstate) (n : Z) : option cqc :=
                  && cqc_knownb P (g_soup s) q) (cert_pool P s).
 Definition someone_queued (s : gstate) (n h : Z) : bool :=
   existsb (fun x => (snd (fst x) =? n) && (snd x =? h)) (g_qlog s).
-Definition sync1 (P : params) (s : gstate) (k : Z) : gstate :=
+(* [f] is the oracle's answer table, fixed when step (3) starts *)
+Definition sync1 (P : params) (f : Z -> option cqc) (s : gstate) (k : Z) : gstate :=
   if live_node P s k then
     let n := r_store_next (n_live (g_node s k)) in
-    match find_cert P s n with
+    match f n with
     | Some q =>
-        if someone_queued s n (hpay (cprop (qmsg q)))
+        if (hnum (cprop (qmsg q)) =? n) && is_ok (cqc_verify (p_g P) (p_e P) (p_C P) q)
+           && cqc_knownb P (g_soup s) q && someone_queued s n (hpay (cprop (qmsg q)))
         then absorb s k (node_input (pcfg P k) (g_node s k) (ISync n (hpay (cprop (qmsg q)))))
         else s
     | None => s
     end
   else s.
-Fixpoint sync_node (P : params) (fuel : nat) (s : gstate) (k : Z) : gstate :=
-  match fuel with O => s | S f => sync_node P f (sync1 P s k) k end.
-Definition sync_all (P : params) (s : gstate) : gstate :=
-  fold_left (sync_node P (length (g_qlog s))) (honest_keys P) s.
+Fixpoint sync_node (P : params) (f : Z -> option cqc) (fuel : nat) (s : gstate) (k : Z) : gstate :=
+  match fuel with O => s | S fu => sync_node P f fu (sync1 P f s k) k end.
+Definition sync_all (P : params) (fetch : gstate -> Z -> option cqc) (s : gstate) : gstate :=
+  fold_left (sync_node P (fetch s) (length (g_qlog s))) (honest_keys P) s.
 
 (* ---------- (4) view timers ---------- *)
 Definition timer1 (P : params) (s0 : gstate) (s : gstate) (k : Z) : gstate :=
@@ -129,9 +140,32 @@ Definition timers_all (P : params) (s0 s : gstate) : gstate :=
   fold_left (timer1 P s0) (honest_keys P) s.
 
 (* ---------- the round ---------- *)
-Definition sync_round (P : params) (pay : Z -> Z) (s : gstate) : gstate :=
-  let s0 := revive_all P s in
-  timers_all P s0 (sync_all P (propose_all P pay (deliver_all P s0))).
+(* the state in which step (3) starts, i.e. where the oracle is consulted *)
+Definition sync_point (P : params) (pay : Z -> Z) (s : gstate) : gstate :=
+  propose_all P pay (deliver_all P (revive_all P s)).
 
-Fixpoint sync_rounds (P : params) (pay : Z -> Z) (n : nat) (s : gstate) : gstate :=
-  match n with O => s | S n' => sync_rounds P pay n' (sync_round P pay s) end.
+Definition sync_round (P : params) (pay : Z -> Z) (fetch : gstate -> Z -> option cqc)
+    (s : gstate) : gstate :=
+  let s0 := revive_all P s in
+  timers_all P s0 (sync_all P fetch (propose_all P pay (deliver_all P s0))).
+
+Fixpoint sync_rounds (P : params) (pay : Z -> Z) (fetch : gstate -> Z -> option cqc)
+    (n : nat) (s : gstate) : gstate :=
+  match n with O => s | S n' => sync_rounds P pay fetch n' (sync_round P pay fetch s) end.
+
+(* ---------- H-FETCH ---------- *)
+(* at state [s] the oracle returns, for every block some honest node has queued, a certificate
+   for exactly that block that verifies and has no forged signatures (such a certificate
+   exists in every reachable state: C01_committed_are_certified) *)
+Definition fetch_ok_at (P : params) (fetch : gstate -> Z -> option cqc) (s : gstate) : Prop :=
+  forall k n h, honestb P k = true -> In (k, n, h) (g_qlog s) ->
+  exists q, fetch s n = Some q /\
+            cqc_verify (p_g P) (p_e P) (p_C P) q = Ok tt /\ cqc_knownb P (g_soup s) q = true /\
+            hnum (cprop (qmsg q)) = n /\ hpay (cprop (qmsg q)) = h.
+(* the environment assumption, in general ... *)
+Definition fetch_ok (P : params) (fetch : gstate -> Z -> option cqc) : Prop :=
+  forall s, preach P s -> fetch_ok_at P fetch s.
+(* ... and restricted to the states in which R synchronous rounds from [s] consult the oracle *)
+Definition fetch_ok_run (P : params) (pay : Z -> Z) (fetch : gstate -> Z -> option cqc)
+    (s : gstate) (R : nat) : Prop :=
+  forall r, (r < R)%nat -> fetch_ok_at P fetch (sync_point P pay (sync_rounds P pay fetch r s)).
